@@ -2328,6 +2328,9 @@ func TestC12(t *testing.T) {
 		h.discardedBranch(chains[q%len(chains)])
 		h.aliasPair(chains[(q+1)%len(chains)])
 		for _, c := range chains {
+			h.gidChange(c)
+		}
+		for _, c := range chains {
 			h.verifyAll(c)
 		}
 		if q%4 == 0 {
